@@ -81,6 +81,23 @@ class _Line(Contract):
     def pre(self, ex, a):
         return wf_query(ex, a.g, a.Y, a.X, a.C)
 
+    def audit(self, ex, callee, ac, a0):
+        """C06 ('ID builds terms only via P(child | predecessors) and sums'): whatever identify puts into a summation range or into a
+        conditional P(v | predecessors) is a plain node of the graph it was called with -- and by `decreases` that graph's nodes are
+        nodes of the caller's graph, so inductively of the user's graph."""
+        L, g = ex.L, a0.g
+        plain_node = lambda v: L.And(g.N(v), L.Not(L.is_intervention(v)))
+        if callee == "y0.dsl.Sum.safe":
+            R = ex.as_set(ac.ranges)
+            return [("ranges-are-graph-nodes", L.forall(1, lambda v: L.Implies(R.has(v), plain_node(v))))]
+        if callee == f"{IDS}.p_conditional":
+            o = ac.ordering
+            if isinstance(o, VSet) and getattr(o, "seq_view", None) is not None:
+                o = o.seq_view
+            mem = o.mem if isinstance(o, VSeq) else ex.as_set(o).has
+            return [("conditional-over-graph-nodes", L.And(plain_node(ac.child.t), L.forall(1, lambda v: L.Implies(mem(v), plain_node(v)))))]
+        return []
+
     returns = "identification"
 
     def result(self, ex, a):
@@ -178,7 +195,7 @@ class _(_Line):
         return out
 
 
-@contract(f"{IDS}.line_7", props=["C01", "C02"])
+@contract(f"{IDS}.line_7", props=["C01", "C02", "C06"])
 class _(_Line):
     """line 7: the single district S of G - X is strictly inside a district S' of G: ID(y, x & S', prod_{S'} P(v | pred), G[S'])"""
     allowed_raises = ("ValueError", "RuntimeError", "NetworkXUnfeasible")
@@ -236,7 +253,7 @@ class _(Contract):
         return VExpr(r)
 
 
-@contract(f"{IDS}.identify", props=["C02", "C01"])
+@contract(f"{IDS}.identify", props=["C02", "C01", "C06"])
 class _(_Line):
     """Totality and refusal discipline of ID: on a valid query over an acyclic graph the only exception is Unidentifiable; the
     function's own `raise Unidentifiable` is reachable only under the published line-5 condition (G - X has a single
@@ -252,6 +269,32 @@ class _(_Line):
 
     def raises(self, ex, a):
         return {"Unidentifiable": ex.L.T()}
+
+    def decreases(self, ex, a0, a1):
+        """Termination (C02 'terminates'): every recursive call is on a graph whose node set is a subset of the caller's, and either
+        that subset is strict (lines 2, 7) or the node set is the same and the set of non-treatment nodes shrinks strictly (lines 3,
+        4).  Both orders are strict-subset orders on finite sets, so their lexicographic product is well-founded."""
+        L = ex.L
+        # cut (emitted as its own obligation, then used): when G - X is a single district S, any two nodes of the district S' of G
+        # that contains S are bidirected-connected -- so a graph that is not one district has a node outside S' (line 7 shrinks it)
+        g0 = a0.g
+        keep = lambda v: L.And(g0.N(v), L.Not(a0.X.has(v)))
+        CU = ex.closure(lambda p, q: g0.U(p, q), "rtcU")
+        CUx = ex.closure(lambda p, q: L.And(g0.U(p, q), keep(p), keep(q)), "rtcUx")
+        one = L.forall(2, lambda p, q: L.Implies(L.And(keep(p), keep(q)), CUx(p, q)))
+        Sp = lambda v: L.exists(1, lambda s_: L.And(keep(s_), CU(s_, v)))
+        lemma = L.Implies(one, L.forall(2, lambda p, q: L.Implies(L.And(Sp(p), Sp(q)), CU(p, q))))
+        if not getattr(ex, "_cut_enclosing_done", False):
+            # proved once, from the entry hypotheses only (it does not depend on the path)
+            ex._cut_enclosing_done = bool(ex.emit("lemma.enclosing-district-is-connected@identify", lemma,
+                                                  note="cut used by the termination obligations", hyps=getattr(ex, "entry_hyps", None)))
+        ex.assume(lemma)
+        sub = L.forall(1, lambda v: L.Implies(a1.g.N(v), a0.g.N(v)))
+        strict_nodes = L.exists(1, lambda v: L.And(a0.g.N(v), L.Not(a1.g.N(v))))
+        free0 = lambda v: L.And(a0.g.N(v), L.Not(a0.X.has(v)))
+        free1 = lambda v: L.And(a1.g.N(v), L.Not(a1.X.has(v)))
+        fewer_free = L.And(L.forall(1, lambda v: L.Implies(free1(v), free0(v))), L.exists(1, lambda v: L.And(free0(v), L.Not(free1(v)))))
+        return L.And(sub, L.Or(strict_nodes, fewer_free))
 
     def raises_direct(self, ex, a):
         L, g = ex.L, a.g
@@ -339,3 +382,28 @@ class _(_Line):
 
     def post(self, ex, a, res):
         return {"none": z3.BoolVal(isinstance(res, VNone))}
+
+
+@contract("y0.algorithm.identify.api.identify_outcomes", props=["C02"])
+class _(Contract):
+    """The public wrapper: on a valid query over an acyclic graph it never raises -- the refusal of ID / IDC (Unidentifiable) is
+    translated into None, everything else is returned as is."""
+    params = {"graph": "graph", "treatments": "nodeset", "outcomes": "nodeset", "conditions": ("none", "nodeset")}
+    domain = "graph+expr"
+    finite_ok = False
+
+    def pre(self, ex, a):
+        from y0vc.libspec import acyclic
+        L = ex.L
+        ac, _ = acyclic(ex, lambda p, q: a.graph.D(p, q))
+        C = a.conditions if isinstance(a.conditions, VSet) else None
+        out = wf_query(ex, a.graph, a.outcomes, a.treatments, C) + [("acyclic", ac)]
+        plain = lambda S: L.forall(1, lambda v: L.Implies(S.has(v), L.Not(L.is_intervention(v))))
+        out += [("no-interventions", L.And(plain(a.outcomes), plain(a.treatments), plain(C) if C is not None else L.T()))]
+        if C is not None:
+            out += [("conditions-disjoint", L.forall(1, lambda v: L.Not(L.And(C.has(v), L.Or(a.outcomes.has(v), a.treatments.has(v)))))),
+                    ("conditions-nonempty", L.exists(1, lambda v: C.has(v)))]
+        return out
+
+    def post(self, ex, a, res):
+        return {"none-or-expression": z3.BoolVal(isinstance(res, (VNone, VExpr)))}
